@@ -11,10 +11,9 @@
     [write_str]/[write_char] cannot fail.  [core::fmt]'s integer formatting ({}, {:+}, {:0w$},
     {:w$}, {:+0w$}, {:+w$}) is modelled by [fmt_int] (trusted, see trusted_base.json).
 
-    REPAIRED behaviour is modelled at two places (fixes/C12-century.diff,
-    fixes/C12-timestamp-width.diff): [YearDiv100]/[IsoYearDiv100] print through [write_n] with
-    width 2 instead of narrowing to [u8] for [write_two]; [Timestamp] uses its documented
-    formatting width 1 instead of 9.
+    [YearDiv100]/[IsoYearDiv100] print through [write_n] with width 2 (repaired code, /repo commit
+    3af8947, fixes/C12-century.diff; before the repair the value was narrowed to [u8] for
+    [write_two]).
     Shared by C12, C13, C15 (and usable by C10/C11 for the RFC writers).  No proofs here. *)
 From Coq Require Import ZArith List Bool.
 From V Require Import Base.Int Base.IO Model.Items Model.Strftime Gen.Locales.
@@ -157,7 +156,7 @@ Definition format_numeric (a : fmt_args) (spec : Numeric) (pad : Pad) : fres :=
       let offset := match fa_off a with Some (_, o) => o | None => 0 end in
       let* ts := naive_timestamp d t in
       let* timestamp := sub_i64 ts offset in
-      write_n 1 timestamp pad false
+      write_n 9 timestamp pad false
   | _, _, _ => ferr
   end.
 
@@ -169,9 +168,8 @@ Definition op_eqb (a b : OffsetPrecision) : bool :=
   | OP_OptionalMinutesAndSeconds, OP_OptionalMinutesAndSeconds => true
   | _, _ => false
   end.
-Definition offset_format (f : OffsetFormat) (off : Z) : fres :=
-  if of_allow_zulu f && (off =? 0) then fok [90] else
-  let* '(sign, off) := (if off <? 0 then let* n := neg_i32 off in Val (45, n) else Val (43, off)) in
+(* the part of the function after `let (sign, off) = if off < 0 { ('-', -off) } else { ('+', off) };` *)
+Definition offset_format_abs (f : OffsetFormat) (sign off : Z) : fres :=
   let* '(hours, mins, secs, precision) :=
     (match of_precision f with
      | OP_Hours => let* h := div_i32 off 3600 in Val (as_u8 h, 0, 0, OP_Hours)
@@ -214,6 +212,10 @@ Definition offset_format (f : OffsetFormat) (off : Z) : fres :=
      | _ => fok []
      end) in
   fok (hh ++ mm ++ ss).
+Definition offset_format (f : OffsetFormat) (off : Z) : fres :=
+  if of_allow_zulu f && (off =? 0) then fok [90] else
+  let* '(sign, off) := (if off <? 0 then let* n := neg_i32 off in Val (45, n) else Val (43, off)) in
+  offset_format_abs f sign off.
 
 Definition nth_name (l : list bytes) (i : Z) : fres := let* s := index l i in fok s.
 
